@@ -210,6 +210,11 @@ func (vs *ValidatorStore) ExecuteAllegationTracker(ctx *ValidatorContext, active
 				logger.Errorf("Validator: %s not found\n", addrHuman)
 				continue
 			}
+			// the record above is the one of the previous block; the stake is charged to the stake
+			// address the validator has now (it can change within the block of the verdict)
+			if current, err := vs.Get(ar.MaliciousAddress); err == nil {
+				validator.StakeAddress = current.StakeAddress
+			}
 			// retrieving balance
 			amt, err := ctx.Delegators.GetValidatorAmount(validator.Address)
 			if err != nil {
@@ -241,6 +246,7 @@ func (vs *ValidatorStore) ExecuteAllegationTracker(ctx *ValidatorContext, active
 			)
 			// starting minusing the bounty
 			err = ctx.Delegators.MinusFromAddress(validator.Address, validator.StakeAddress, *balance.NewAmountFromBigInt(pAmt))
+			slashed := err == nil
 			if err == nil {
 				bountyCoin := balance.Coin{
 					Currency: currency,
@@ -266,11 +272,13 @@ func (vs *ValidatorStore) ExecuteAllegationTracker(ctx *ValidatorContext, active
 				logger.Errorf("Failed to get balance from delegators: %s\n", err)
 				continue
 			}
-			// postpone the update for next block
-			err = vs.delayHandleUnstake(validator.Address, *balance.NewAmountFromBigInt(pAmt))
-			if err != nil {
-				logger.Errorf("Failed to update postponed: %s\n", err)
-				continue
+			// postpone the update for next block; nothing to update when nothing was taken
+			if slashed {
+				err = vs.delayHandleUnstake(validator.Address, *balance.NewAmountFromBigInt(pAmt))
+				if err != nil {
+					logger.Errorf("Failed to update postponed: %s\n", err)
+					continue
+				}
 			}
 		} else if innocent {
 			decisionMade = true
